@@ -300,6 +300,23 @@ def _request_records_once(rep, repo, st):
               'status key derives from the exception\'s code, else its class name' if exc_ok else
               'status key on the exceptional path is not the exception\'s code / class name itself%s'
               % (': it is computed from it (%s)' % short(computed[0]) if computed else ''), st, rq.node)
+    # the keys of one route's table are of one kind -- text: the code is filed under its rendering, as the class name of an exception
+    # without a code is text anyway (a table keyed by 404 and 'ValueError' cannot be sorted / serialised with sorted keys: the report
+    # and the totals of the reset endpoint are never delivered).  Kinds over the finite domain {str, int, mixed}; the HTTP code
+    # attributes (status_code / code) are ints.
+    kinds = [(Lq.resolve(s.value, s), _key_kind(Lq.resolve(s.value, s))) for s in sv_assigns]
+    if kinds:
+        unknown = [s for s, k in kinds if k is None]
+        if unknown:
+            raise AnalysisError('StatsMiddleware.request: cannot tell of what kind (text / number) the status key %s is' % short(unknown[0]))
+        ks = set(k for _, k in kinds)
+        ok = ks == {'str'}
+        worst = [s for s, (_, k) in zip(sv_assigns, kinds) if k != 'str']
+        rep.check('R19.a', fkey(rq, 'status key kind'), ok,
+                  'every status key is text (the code rendered by repr / str / %%, the class name as it is): %d binding(s)' % len(kinds) if ok else
+                  'the status keys of one route are not all text (%s): the code itself (an int) is used as a key next to class names (str), so the '
+                  'per-route table has keys of mixed kinds -- it cannot be sorted / serialised with sorted keys, the report and the totals of the reset '
+                  'endpoint are not delivered' % '; '.join('%s is %s' % (short(s, 60), k) for s, k in kinds), st, (worst or [rq.node])[0])
     # Hit field order: the recorded value is Hit(...) with the arguments lined up with the namedtuple's fields
     fields = _record_fields(repo, st, 'Hit')
     hc = Lq.resolve(add.args[0], stmt_of(st, add), stop=lambda n: n == status_var) if len(add.args) == 1 else None
@@ -319,6 +336,47 @@ def _request_records_once(rep, repo, st):
     rets = returns_of(rq)
     ok = bool(rets) and all(isinstance(r.value, ast.Name) and r.value.id in nd for r in rets)
     rep.check('R19.a', fkey(rq, 'return'), ok, 'returns the next() result' if ok else 'does not return the next() result', st, rq.node)
+
+
+CODE_ATTRS = {'status_code', 'code'}       # HTTP status codes: ints (werkzeug BaseResponse.status_code, HTTPException.code)
+
+
+def _key_kind(e):
+    """of what kind the value of expression ``e`` (named temporaries already looked through) is as a dictionary key: 'str', 'int',
+    'mixed' (one or the other, depending on the path / the object), or None when it cannot be told"""
+    def join(ks):
+        ks = list(ks)
+        if not ks or any(k is None for k in ks):
+            return None
+        return ks[0] if all(k == ks[0] for k in ks) else 'mixed'
+    if isinstance(e, ast.Constant):
+        return 'str' if isinstance(e.value, str) else 'int' if isinstance(e.value, int) and not isinstance(e.value, bool) else None
+    if isinstance(e, ast.JoinedStr):
+        return 'str'
+    if isinstance(e, ast.BinOp) and isinstance(e.op, ast.Mod) and (isinstance(e.left, ast.JoinedStr) or
+                                                                  (isinstance(e.left, ast.Constant) and isinstance(e.left.value, str))):
+        return 'str'
+    if isinstance(e, ast.BinOp) and isinstance(e.op, ast.Add):
+        return join([_key_kind(e.left), _key_kind(e.right)])
+    if isinstance(e, ast.Call):
+        if isinstance(e.func, ast.Name) and e.func.id in ('repr', 'str', 'ascii', 'format'):
+            return 'str'
+        if isinstance(e.func, ast.Name) and e.func.id == 'int':
+            return 'int'
+        if isinstance(e.func, ast.Attribute) and e.func.attr in ('format', 'join', 'lower', 'upper', 'strip', 'title') and \
+                (isinstance(e.func.value, ast.Constant) and isinstance(e.func.value.value, str) or _key_kind(e.func.value) == 'str'):
+            return 'str'
+        if isinstance(e.func, ast.Name) and e.func.id == 'getattr' and len(e.args) in (2, 3) and not e.keywords and isinstance(e.args[1], ast.Constant):
+            own = 'int' if e.args[1].value in CODE_ATTRS else 'str' if e.args[1].value in ('__name__', '__qualname__') else None
+            return own if len(e.args) == 2 else join([own, _key_kind(e.args[2])])
+        return None
+    if isinstance(e, ast.Attribute):
+        return 'int' if e.attr in CODE_ATTRS else 'str' if e.attr in ('__name__', '__qualname__') else None
+    if isinstance(e, ast.IfExp):
+        return join([_key_kind(e.body), _key_kind(e.orelse)])
+    if isinstance(e, ast.BoolOp):
+        return join(_key_kind(v) for v in e.values)
+    return None
 
 
 def _record_fields(repo, mod, name):
